@@ -279,6 +279,61 @@ func TestGovcC08AggregateLaws(t *testing.T) {
 				}
 			}
 		}
+		// --- several aggregates over the same group with different filters: each one is computed over its own
+		// filtered members, in either order of appearance
+		type gf struct {
+			src  string
+			keep func(v float64) bool
+		}
+		gfs := []gf{{`{age: {_gt: 1}}`, func(v float64) bool { return v > 1 }}, {`{age: {_lt: 5}}`, func(v float64) bool { return v < 5 }},
+			{`{age: {_ge: 2}}`, func(v float64) bool { return v >= 2 }}}
+		for _, f1 := range gfs {
+			for _, f2 := range gfs {
+				for _, sumFirst := range []bool{true, false} {
+					sel := fmt.Sprintf(`s: _sum(_group: {field: age, filter: %s})`, f1.src)
+					av := fmt.Sprintf(`a: _avg(_group: {field: age, filter: %s})`, f2.src)
+					if !sumFirst {
+						sel, av = av, sel
+					}
+					q := fmt.Sprintf(`query { Users(groupBy: [name]) { name %s %s c: _count(_group: {filter: %s}) _group { age } } }`, sel, av, f2.src)
+					m, err := c08Exec(ctx, db, q)
+					cases++
+					if err != nil {
+						add("no request fails or panics", q+": "+err.Error())
+						continue
+					}
+					groups, _ := m["Users"].([]map[string]any)
+					for _, g := range groups {
+						kids, _ := g["_group"].([]map[string]any)
+						s1, s2, n2 := 0.0, 0.0, 0
+						for _, k := range kids {
+							if v, ok := c08Num(k["age"]); ok {
+								if f1.keep(v) {
+									s1 += v
+								}
+								if f2.keep(v) {
+									s2 += v
+									n2++
+								}
+							}
+						}
+						if v, ok := c08Num(g["s"]); !ok || !c08Close(v, s1) {
+							add("_sum of a filtered group = sum over the members that pass its own filter", fmt.Sprintf("%s: group %v: _sum %v, want %v", q, g["name"], g["s"], s1))
+						}
+						if v, ok := c08Num(g["c"]); !ok || int(v) != n2 {
+							add("_count of a filtered group = number of members that pass its own filter", fmt.Sprintf("%s: group %v: _count %v, want %d", q, g["name"], g["c"], n2))
+						}
+						wantAvg := 0.0
+						if n2 > 0 {
+							wantAvg = s2 / float64(n2)
+						}
+						if v, ok := c08Num(g["a"]); !ok || !c08Close(v, wantAvg) {
+							add("_avg of a filtered group = average over the members that pass its own filter", fmt.Sprintf("%s: group %v: _avg %v, want %v", q, g["name"], g["a"], wantAvg))
+						}
+					}
+				}
+			}
+		}
 		db.Close()
 	}
 	out := map[string]any{"cases": cases, "problems": problems}
